@@ -85,12 +85,11 @@ func (f *GitFilter) copyToTemp(reader io.Reader, fileSize int64, cb tools.CopyCa
 		return
 	}
 
-	var from io.Reader = bytes.NewReader(by)
-	if fileSize < 0 || int64(len(by)) < fileSize {
-		// If there is still more data to be read from the file, tack on
-		// the original reader and continue the read from there.
-		from = io.MultiReader(from, reader)
-	}
+	// There may still be more data to be read: tack on the original reader
+	// and continue the read from there. (fileSize is only the size of whatever
+	// currently sits at the path in the working tree; it says nothing about
+	// how much the stream holds, so it must not decide whether to read on.)
+	var from io.Reader = io.MultiReader(bytes.NewReader(by), reader)
 
 	size, err = tools.CopyWithCallback(writer, from, fileSize, cb)
 
